@@ -57,6 +57,9 @@ def _gen_slicer(S, n_rows):
     if kind == "number" and S.chance(0.15):
         # leave the description's 'intervals' key out: default slicer NumberOfIntervalsSlicer(10)
         return {"kind": "number", "default": True, "n_intervals": 10, "reference": "center", "include_max": True, "min_n_points": 50, "min_n_intervals": 3}
+    if kind in ("width", "number") and S.chance(0.25):
+        # an explicit value range (fractions of the data's maximum, resolved when the model is built)
+        sp["value_range_frac"] = S.pick([[0.05, 0.8], [0.0, 0.7], [None, 0.85], [0.1, None]]) if kind == "width" else S.pick([[0.05, 0.8], [0.0, 0.9], [0.1, 1.2]])
     if kind == "width":
         sp["n_target"] = k
         if S.chance(0.4):
@@ -64,7 +67,7 @@ def _gen_slicer(S, n_rows):
             # many rows tie with interval limits
             sp["width"] = S.pick([0.2, 0.3, 0.4, 0.6, 0.7, 0.8, 0.9, 1.1, 1.2])
             sp["nice"] = True
-        sp["reference"] = S.pick(["center", "left", "right", "median", "mean"])
+        sp["reference"] = S.pick(["center", "left", "right", "median", "mean", "min", "trimmed"])
         sp["right_open"] = S.chance(0.6)
     elif kind == "number":
         sp["n_intervals"] = k
@@ -72,7 +75,7 @@ def _gen_slicer(S, n_rows):
         sp["include_max"] = S.chance(0.7)
     else:
         sp["n_points"] = max(25, n_rows // k + S.int(-5, 5))
-        sp["reference"] = S.pick(["median", "mean"])
+        sp["reference"] = S.pick(["median", "mean", "min", "trimmed"])
         sp["last_full"] = S.chance(0.5)
         sp["min_n_points"] = min(sp["min_n_points"], sp["n_points"])
     return sp
@@ -219,7 +222,7 @@ def make_data(scen, st):
     return D
 
 
-REFS = {"median": np.median, "mean": np.mean}
+REFS = {"median": np.median, "mean": np.mean, "min": np.min, "trimmed": lambda a: float(np.mean(np.sort(a)[len(a) // 10 : len(a) - len(a) // 10 or None]))}
 
 
 def make_slicer(sp, data_max):
@@ -227,11 +230,14 @@ def make_slicer(sp, data_max):
 
     ref = REFS.get(sp["reference"], sp["reference"])
     kw = {"min_n_points": sp["min_n_points"], "min_n_intervals": sp["min_n_intervals"]}
+    vr = None
+    if sp.get("value_range_frac"):
+        vr = tuple(None if f is None else core.r6(f * data_max) for f in sp["value_range_frac"])
     if sp["kind"] == "width":
         width = sp.get("width") or core.r6(data_max / sp["n_target"])
-        return WidthOfIntervalSlicer(width=width, reference=ref, right_open=sp["right_open"], **kw)
+        return WidthOfIntervalSlicer(width=width, reference=ref, right_open=sp["right_open"], value_range=vr, **kw)
     if sp["kind"] == "number":
-        return NumberOfIntervalsSlicer(n_intervals=sp["n_intervals"], reference=ref, include_max=sp["include_max"], **kw)
+        return NumberOfIntervalsSlicer(n_intervals=sp["n_intervals"], reference=ref, include_max=sp["include_max"], value_range=vr, **kw)
     return PointsPerIntervalSlicer(n_points=sp["n_points"], reference=ref, last_full=sp["last_full"], **kw)
 
 
